@@ -2,6 +2,8 @@ package main
 
 import (
 	"fmt"
+	"strings"
+	"sync"
 	"time"
 
 	"github.com/bluenviron/gortsplib/v5/pkg/ringbuffer"
@@ -55,29 +57,73 @@ type pullRes struct {
 	site  string
 }
 
-func pullGuarded(rb *ringbuffer.RingBuffer) (pullRes, bool) {
-	ch := make(chan pullRes, 1)
+// puller guards the Pull calls of one enumeration job: Pull runs inline; a watchdog goroutine
+// notices when the job makes no progress for 10 s, reports the word and closes the ring to get
+// the job going again.
+type puller struct {
+	mu       sync.Mutex
+	rb       *ringbuffer.RingBuffer
+	word     string
+	cap      int
+	since    time.Time
+	inPull   bool
+	reported bool
+	stop     chan struct{}
+}
+
+func newPuller() *puller {
+	p := &puller{stop: make(chan struct{})}
 	go func() {
-		var r pullRes
-		defer func() {
-			if p := recover(); p != nil {
-				r.panic, r.site = fmt.Sprint(p), vlib.PanicSite(vlib.Stack())
+		t := time.NewTicker(time.Second)
+		defer t.Stop()
+		for {
+			select {
+			case <-p.stop:
+				return
+			case <-t.C:
 			}
-			ch <- r
-		}()
-		r.v, r.ok = rb.Pull()
+			p.mu.Lock()
+			if p.inPull && !p.reported && time.Since(p.since) > 10*time.Second {
+				p.reported = true
+				run.Violation("ring/seq/pull-blocks", fmt.Sprintf("capacity %d, operations %s: the last Pull does not return although the model says it must not block", p.cap, p.word),
+					seqWitness{Kind: "sequential", Cap: p.cap, Ops: p.word, Step: len(p.word) - 1, Got: "Pull does not return", Want: "a value"})
+				p.rb.Close()
+			}
+			p.mu.Unlock()
+		}
 	}()
-	select {
-	case r := <-ch:
-		return r, true
-	case <-time.After(10 * time.Second):
-		return pullRes{}, false
+	return p
+}
+
+func (p *puller) pull(rb *ringbuffer.RingBuffer, capacity int, word []byte) (r pullRes, returned bool) {
+	p.mu.Lock()
+	p.rb, p.cap, p.word, p.since, p.inPull, p.reported = rb, capacity, string(word), time.Now(), true, false
+	p.mu.Unlock()
+	defer func() {
+		if v := recover(); v != nil {
+			r.panic, r.site = fmt.Sprint(v), panicSite(vlib.Stack())
+		}
+		p.mu.Lock()
+		p.inPull = false
+		returned = !p.reported
+		p.mu.Unlock()
+	}()
+	r.v, r.ok = rb.Pull()
+	return r, true
+}
+
+// panicSite is vlib.PanicSite for a stack taken inside a deferred function: the frames of the
+// deferred function itself (up to the runtime's panic frame) are not the panic's site.
+func panicSite(stack string) string {
+	if i := strings.Index(stack, "\npanic("); i >= 0 {
+		stack = stack[i+1:]
 	}
+	return vlib.PanicSite(stack)
 }
 
 // runSeq executes one word; returns the number of steps compared and whether the word ran to its
 // full length.
-func runSeq(capacity int, word []byte) (steps int, full bool) {
+func runSeq(pl *puller, capacity int, word []byte) (steps int, full bool) {
 	rb, err := ringbuffer.New(uint64(capacity))
 	if err != nil {
 		run.Violation("ring/seq/new-error", fmt.Sprintf("ringbuffer.New(%d): %v", capacity, err), seqWitness{Kind: "sequential", Cap: capacity})
@@ -92,7 +138,7 @@ func runSeq(capacity int, word []byte) (steps int, full bool) {
 	defer func() {
 		if p := recover(); p != nil {
 			st := vlib.Stack()
-			run.Violation("ring/seq/panic/"+vlib.PanicSite(st), fmt.Sprintf("capacity %d, operations %s: panic: %v", capacity, word, p),
+			run.Violation("ring/seq/panic/"+panicSite(st), fmt.Sprintf("capacity %d, operations %s: panic: %v", capacity, word, p),
 				seqWitness{Kind: "sequential", Cap: capacity, Ops: string(word), Got: fmt.Sprint(p)})
 		}
 	}()
@@ -122,9 +168,8 @@ func runSeq(capacity int, word []byte) (steps int, full bool) {
 			if !m.closed && len(m.q) == 0 {
 				return steps, false // would block: word not enabled
 			}
-			r, returned := pullGuarded(rb)
-			if !returned {
-				fail(i, "ring/seq/pull-blocks", "Pull does not return", "a value")
+			r, returned := pl.pull(rb, capacity, word[:i+1])
+			if !returned { // reported by the watchdog
 				return steps, false
 			}
 			if r.panic != "" {
@@ -208,13 +253,15 @@ func seqExhaustive() {
 			n *= 4
 		}
 		var steps, fullWords, cut int64
+		pl := newPuller()
+		defer close(pl.stop)
 		for x := 0; x < n; x++ {
 			v := x
 			for i := 2; i < seqLen; i++ {
 				word[i] = letters[v%4]
 				v /= 4
 			}
-			s, full := runSeq(j.cap, word)
+			s, full := runSeq(pl, j.cap, word)
 			steps += int64(s)
 			if full {
 				fullWords++
